@@ -302,6 +302,27 @@ def body_tables(case):
             with cut("config_from_fits(results file)"):
                 rec = config_from_fits(path)
         check_reconstruction(conf, rec, "results file of a run")
+        # ... so that the file can be reloaded for plotting: the show-plot command (in process) loads it and hands it
+        # to every module's plotter, whichever channels ran and however many rows there are
+        import matplotlib
+
+        matplotlib.use("Agg")
+        from click.testing import CliRunner
+        from matplotlib import pyplot as plt
+
+        from nuspacesim.apps.cli import cli
+
+        # (drawing itself is matplotlib's business - it refuses e.g. 100 histogram bins over a near-zero data range -
+        # and is not required here: the claim is that the file loads and reaches every module's plotter)
+        variants = [[]]
+        for args in variants:
+            try:
+                with quiet():
+                    res = CliRunner().invoke(cli, ["show-plot", path, *args])
+            finally:
+                plt.close("all")
+            require(res.exit_code == 0, f"`nuspacesim show-plot <results file> {' '.join(args)}` failed for a {case['mode']} run (optical {case['optical']}, radio {case['radio']}, {len(tab)} rows): {res.exception!r}")
+            labels.add("show_plot" + ("_with_plots" if args else ""))
     finally:
         shutil.rmtree(tmp, ignore_errors=True)
     if len(tab):
